@@ -60,12 +60,26 @@ def arrayBodyOK (body : List (String × Obj)) : Bool :=
          ((alookup "units" a).isSome || alookup "name" a == some (.str "_labels_"))
      | _ => false))
 
+/-- a group inside a node's body that is not the metadata bundle can only be a node-valued attribute of a Custom node:
+    tagged `custom_<data group type>` (never anything else, never untagged) and carrying a class name -/
+def attrGroupOK (o : Obj) : Bool :=
+  match o with
+  | .dataset _ _ => true
+  | .group _ _ =>
+    (match o.gtype with
+     | some t => EmdGen.customGroupTypes.contains t
+     | none => false) && o.pyClass.isSome
+
+def bodyGroupsOK (body : List (String × Obj)) : Bool :=
+  body.all (fun kv => kv.1 == "metadatabundle" || attrGroupOK kv.2)
+
 /-- what the body of a node group must look like, by EMD group type -/
 def bodyOK (gtype : String) (body : List (String × Obj)) : Bool :=
   (match alookup "metadatabundle" body with
    | none => true
    | some b => bundleOK b) &&
-  (if gtype == "array" then arrayBodyOK body else true)
+  (if gtype == "array" then arrayBodyOK body else true) &&
+  bodyGroupsOK body
 
 def infoOK (i : NodeInfo) : Bool := bodyOK i.gtype i.body
 
